@@ -117,17 +117,19 @@ Section Machine.
       | None => let '(b, o1) := pop o in ((if b then RERR else ROK), x0, o1)
       end.
 
+    Definition act_status (a : act) (o : list bool) (x : vst) : res * vst * list bool :=
+      match act_callee a with
+      | None => let '(b, o1) := pop o in ((if b then RERR else ROK), x, o1)       (* an inline test *)
+      | Some (i, a0) => do_callee i a0 o x
+      end.
+
     Definition do_act (a : act) (o : list bool) (x : vst) : res * vst * list bool :=
       match a with
       | AMirror m => (ROK, (if benign m then x else vadd_mir x m), o)
       | AErr => (ROK, vset_err x, o)
       | AUnparsed => (ROK, vadd_file x 1, o)
       | ACheck _ _ _ _ _ | ACall _ _ _ _ _ =>
-        let '(r0, x1, o1) :=
-            match act_callee a with
-            | None => let '(b, o1) := pop o in ((if b then RERR else ROK), x, o1)       (* an inline test *)
-            | Some (i, a0) => do_callee i a0 o x
-            end in
+        let '(r0, x1, o1) := act_status a o x in
         let r := adjust a r0 in
         (r, (if is_counted_check a && is_fail r then vset_vf x1 true else x1), o1)
       end.
